@@ -147,9 +147,10 @@ Qed.
 Lemma respond_mandatory r requester a p i :
   0 <= requester < 256 -> mandatory_pgn p = true ->
   on_bus (rn r) i -> driver_accepts (rn r) -> protocol_pgns_single (n_pgn (rn r)) -> info_fits (r_cfg r) -> rnode_wf r ->
+  config_info_present (r_cfg r) p ->
   positive_answer r requester p i (respond_iso_request r requester a p i).
 Proof.
-  intros Hreq Hman Hbus Hdrv (_ & Hsingle) (Hfit1 & Hfit2) Hrwf.
+  intros Hreq Hman Hbus Hdrv (_ & Hsingle) (Hfit1 & Hfit2) Hrwf Hconf.
   pose proof Hbus as (Ho & Hm & Hi & Hs & Hc).
   destruct (respond_prefix r i Hi Hc) as (P1 & P2 & S1 & Q1 & Q2). cbv zeta in *.
   set (n1 := fst (claim_started (rn r) i)) in *.
@@ -168,7 +169,8 @@ Proof.
       try (cbn [claim_msg m_pri m_pgn m_dst m_data]; unfold c_N2kPGNIsoAddressClaim;
            first [lia | reflexivity | (unfold le_bytes; rewrite map_length, seq_length; lia)]).
     unfold rsend in E. destruct (send_msg (rn r1) (claim_msg (get_dev (rn r1) i) 255) i) as [[n' ev] ok]. injection E as E1 E2 E3. subst r' ev ok.
-    exists ans. split; [change (rn r1) with n1; rewrite Hpend; reflexivity|]. split; [exact Q|]. split; [|split; [discriminate|split; discriminate]].
+    exists ans. split; [change (rn r1) with n1; rewrite Hpend; reflexivity|]. split; [exact Q|]. split; [|split; discriminate].
+    unfold answer_frames. split; [|split; [discriminate|split; discriminate]].
     intros _. cbn [claim_msg m_pri m_pgn m_dst m_data m_len] in Hans. unfold c_N2kPGNIsoAddressClaim in Hans.
     replace (Z.of_nat (length (le_bytes 8 (d_name (get_dev (rn r1) i)))) <=? 8) with true in Hans
       by (unfold le_bytes; rewrite map_length, seq_length; reflexivity).
@@ -190,6 +192,7 @@ Proof.
       try (rewrite ?N1, ?N2, ?N3; first [exact N4 | lia | reflexivity]).
     rewrite E2. rewrite Hp2. cbn [app].
     exists (ans1 ++ ans2). split; [change (rn r1) with n1; rewrite Hpend, app_assoc; reflexivity|]. split; [exact Q3|].
+    split; [|split; discriminate]. unfold answer_frames.
     split; [discriminate|]. split; [|split; discriminate].
     intros _. exists ans1, ans2. split; [reflexivity|].
     rewrite M1, M2, M3 in Hans1. rewrite N1, N2, N3 in Hans2.
@@ -215,15 +218,18 @@ Proof.
     assert (Hix: 0 <= i < Z.of_nat (length (rx_dev r2))).
     { rewrite Er. cbn [with_rn rx_dev r1]. rewrite Hrwf. exact Hi. }
     exists ans. split; [change (rn r1) with n1; rewrite Hpend; reflexivity|]. split; [exact Q|].
-    split; [discriminate|]. split; [discriminate|]. split; [|discriminate].
-    intros _. split.
-    + cbn [m m_pri m_pgn m_dst m_data] in Hans. replace (6 >=? 128) with false in Hans by reflexivity.
+    split; [|split; [|discriminate]].
+    + unfold answer_frames. split; [discriminate|]. split; [discriminate|]. split; [|discriminate]. intros _.
+      cbn [m m_pri m_pgn m_dst m_data] in Hans. replace (6 >=? 128) with false in Hans by reflexivity.
       rewrite (fp_always _ 126996 eq_refl ltac:(lia)), andb_false_r in Hans.
       cbn [r1 with_rn rn r_cfg] in Hans. rewrite Hsrc1 in Hans. exact Hans.
-    + rewrite get_devx_set by exact Hix. cbn [x_pend_prod].
+    + intros _. rewrite get_devx_set by exact Hix. cbn [x_pend_prod].
       change (w64 (with_devx r2 i _)) with (w64 r2). apply sched_disabled_not_enabled.
   - (* 126998 *)
-    cbn [Z.eqb Pos.eqb]. unfold send_config_info.
+    cbn [Z.eqb Pos.eqb].
+    assert (Hne: c_confinfo (r_cfg r1) <> []) by (cbn [r1 with_rn r_cfg]; apply Hconf; reflexivity).
+    destruct (c_confinfo (r_cfg r1)) as [|c0 cl] eqn:EC; [exfalso; apply Hne; reflexivity|]. clear Hne.
+    unfold send_config_info.
     rewrite (chk_dev_ok r1 i) by (destruct Hbus1 as (_ & _ & X & _); exact X).
     set (m := {| m_pri := 6; m_pgn := 126998; m_src := dev_src r1 i; m_dst := 255; m_data := c_confinfo (r_cfg r1); m_tp := false |}).
     destruct (rsend_answer r1 m i Hbus1 Hdrv1 eq_refl) as (r2 & ans & E & Er & S2 & Q & Hans);
@@ -234,11 +240,11 @@ Proof.
     assert (Hix: 0 <= i < Z.of_nat (length (rx_dev r2))).
     { rewrite Er. cbn [with_rn rx_dev r1]. rewrite Hrwf. exact Hi. }
     exists ans. split; [change (rn r1) with n1; rewrite Hpend; reflexivity|]. split; [exact Q|].
-    split; [discriminate|]. split; [discriminate|]. split; [discriminate|].
-    intros _. split.
-    + cbn [m m_pri m_pgn m_dst m_data] in Hans. replace (6 >=? 128) with false in Hans by reflexivity.
+    split; [|split; [discriminate|]].
+    + unfold answer_frames. split; [discriminate|]. split; [discriminate|]. split; [discriminate|]. intros _.
+      cbn [m m_pri m_pgn m_dst m_data] in Hans. replace (6 >=? 128) with false in Hans by reflexivity.
       rewrite (fp_always _ 126998 eq_refl ltac:(lia)), andb_false_r in Hans.
       cbn [r1 with_rn rn r_cfg] in Hans. rewrite Hsrc1 in Hans. exact Hans.
-    + rewrite get_devx_set by exact Hix. cbn [x_pend_conf].
+    + intros _. rewrite get_devx_set by exact Hix. cbn [x_pend_conf].
       change (w64 (with_devx r2 i _)) with (w64 r2). apply sched_disabled_not_enabled.
 Qed.
